@@ -99,9 +99,26 @@ pub enum Prog {
     CallDropAll,
     /// a handler panics; then await the address and join
     PanicAwaitJoin,
+    /// create a join future, drop it unpolled, detach the owner, call
+    AbandonJoinDetachCall,
+    /// create a join future, drop it unpolled, keep a plain address, drop the owner, call
+    AbandonJoinDropOwnerCall,
+    /// a join future is created and simply kept (never polled) while the owner is detached
+    PendingJoinDetachCall,
 }
 
-pub const PROGS: [Prog; 7] = [Prog::Call, Prog::DropOthersCall, Prog::DetachCall, Prog::StopAwaitJoin, Prog::Ticks, Prog::CallDropAll, Prog::PanicAwaitJoin];
+pub const PROGS: [Prog; 10] = [
+    Prog::Call,
+    Prog::DropOthersCall,
+    Prog::DetachCall,
+    Prog::StopAwaitJoin,
+    Prog::Ticks,
+    Prog::CallDropAll,
+    Prog::PanicAwaitJoin,
+    Prog::AbandonJoinDetachCall,
+    Prog::AbandonJoinDropOwnerCall,
+    Prog::PendingJoinDetachCall,
+];
 
 enum Spawned {
     Addr(Addr<P>),
@@ -214,6 +231,27 @@ impl Scene for S {
             }
             Prog::Ticks => vec![Op::Sleep(4), Op::Call(t, 1)],
             Prog::CallDropAll => vec![Op::Call(t, 1)],
+            Prog::AbandonJoinDetachCall => {
+                if owning {
+                    vec![Op::Call(t, 1), Op::JoinStart(H::Own(0)), Op::JoinDrop(0), Op::Detach(H::Own(0)), Op::Yield, Op::Call(H::Addr(0), 2)]
+                } else {
+                    vec![Op::Call(t, 1), Op::Yield, Op::Call(t, 2)]
+                }
+            }
+            Prog::AbandonJoinDropOwnerCall => {
+                if owning {
+                    vec![Op::Call(t, 1), Op::JoinStart(H::Own(0)), Op::JoinDrop(0), Op::ToAddr(H::Own(0)), Op::Drop(H::Own(0)), Op::Yield, Op::Call(H::Addr(0), 2)]
+                } else {
+                    vec![Op::Call(t, 1), Op::Yield, Op::Call(t, 2)]
+                }
+            }
+            Prog::PendingJoinDetachCall => {
+                if owning {
+                    vec![Op::Call(t, 1), Op::JoinStart(H::Own(0)), Op::Detach(H::Own(0)), Op::Yield, Op::Call(H::Addr(0), 2)]
+                } else {
+                    vec![Op::Call(t, 1), Op::Yield, Op::Call(t, 2)]
+                }
+            }
             Prog::PanicAwaitJoin => {
                 if owning {
                     vec![Op::Call(t, 1), Op::ToAddr(H::Own(0)), Op::Send(H::Own(0), 66), Op::Await(H::Addr(0)), Op::Join(H::Own(0))]
@@ -251,7 +289,11 @@ impl Scene for S {
                 Prog::StopAwaitJoin => o.i == 0,
                 Prog::Ticks => o.i == 1,
                 Prog::CallDropAll | Prog::PanicAwaitJoin => o.i == 0,
+                Prog::AbandonJoinDetachCall | Prog::AbandonJoinDropOwnerCall | Prog::PendingJoinDetachCall => true,
             };
+            if o.c == 0 && call_op && is_call {
+                crate::check::oblige("actor-runs-after-spawn-returned");
+            }
             if o.c == 0 && call_op && is_call && !o.ok() {
                 out.push(Violation {
                     clause: "actor-runs-after-spawn-returned",
@@ -330,6 +372,7 @@ pub fn property() -> Property {
     Property {
         id: "C18",
         cases,
+        clauses: &["actor-runs-after-spawn-returned"],
         assumptions: &[
             "each runtime is represented by its shim in src/verif.rs (tokio: drop = detach, JoinError on panic/cancel; async-std: drop = detach, awaiting a failed task panics; smol: drop = cancel, detach() = run on); the shims are bound to the real runtimes by `mc conformance`, run in setup and by this check",
             "wall-clock behaviour is out of scope: timers run on the virtual clock on all three",
